@@ -38,7 +38,7 @@ func (ks keySchema) getKeyValue(attrs map[string]string, item map[string]*types.
 		return hashKeyStr, nil
 	}
 
-	key = append(key, hashKeyStr)
+	key = append(key, escapeKeyPart(hashKeyStr))
 
 	val, err = getItemValue(item, ks.RangeKey, attrs[ks.RangeKey])
 	if err != nil {
@@ -48,6 +48,17 @@ func (ks keySchema) getKeyValue(attrs map[string]string, item map[string]*types.
 	key = append(key, fmt.Sprintf("%v", val))
 
 	return strings.Join(key, "."), nil
+}
+
+// escapeKeyPart escapes the separator used to join the hash and range renderings, so that
+// distinct (hash, range) pairs never produce the same key string, e.g. ("a.b", "c") and
+// ("a", "b.c").
+func escapeKeyPart(s string) string {
+	if !strings.ContainsAny(s, `.\`) {
+		return s
+	}
+
+	return strings.NewReplacer(`\`, `\\`, `.`, `\.`).Replace(s)
 }
 
 func (ks *keySchema) describe() []types.KeySchemaElement {
